@@ -266,10 +266,19 @@ fn cmd_replay(args: &[String]) -> i32 {
             return 2;
         }
     };
-    let (name, spec, sig) = runner::spec_from_replay_file(&path);
+    let (name, mut spec, sig) = runner::spec_from_replay_file(&path);
     let scn = scenario_by_name(&name);
     scn.setup();
+    let want_trace = args.iter().any(|a| a == "--trace");
+    spec.full_trace = want_trace;
     let r = runner::run_one(scn, &spec);
+    if want_trace {
+        if let Some(t) = r.raw["full_trace"].as_array() {
+            for e in t {
+                println!("T {}", e.as_str().unwrap_or(""));
+            }
+        }
+    }
     println!("replay {}: outcome={} signature={}", path, r.outcome, r.signature);
     if !r.detail.is_empty() {
         println!("  detail: {}", r.detail);
